@@ -114,7 +114,7 @@ Print Assumptions resume_bisimilar_refuted_undeclared_data.
 Theorem resume_pinned_partial :
   forall lv xv c, chart_named c = true ->
   forall md5 v fuel k ins sp sn r,
-    sz_stable_lost v = true -> sz_undeclared_restored v = false ->
+    sz_stable_lost v = true -> sz_undeclared_restored v = false -> (forall z, sz_skip_value v z = false) ->
     irun_to ELarge c (large_step lv xv c) fuel k fresh ins = Some sp -> st_rc sp = RC_MACROSTEPPED ->
     (sz_delay_lost v = true -> i_dq (st_state sp) = []) ->
     Forall plain (x_eq (i_x (st_state sp))) ->
@@ -126,6 +126,39 @@ Theorem resume_pinned_partial :
       since (st_state sp) (irun ELarge c (large_step lv xv c) fuel' (st_state sp) ins').
 Proof. exact resume_pinned_partial_lemma. Qed.
 Print Assumptions resume_pinned_partial.
+
+(* A variant of serialize() that leaves some values out of the state string (sz_skip_value; the real code writes
+   every declared value, a seeded change skipped the values for which Data::empty() holds).
+   _partial: at every boundary of every run at which no variable holds such a value, every variable is restored; *)
+Theorem roundtrip_state_unless_skipped :
+  forall lv xv c, chart_named c = true ->
+  forall md5 v fuel k ins sp sn,
+    sz_undeclared_restored v = false ->
+    irun_to ELarge c (large_step lv xv c) fuel k fresh ins = Some sp ->
+    (forall id z, lookup (x_store (i_x (st_state sp))) id = Some z -> sz_skip_value v z = false) ->
+    serialize ELarge c v md5 (st_rc sp) (st_state sp) = Some sn ->
+    exists r, deserialize ELarge v md5 fresh sn = DsOk r /\
+              store_equiv (x_store (i_x (st_state sp))) (x_store (i_x r)) /\
+              l_cfg (i_l r) = l_cfg (i_l (st_state sp)) /\ l_hist (i_l r) = l_hist (i_l (st_state sp)) /\
+              x_eq (i_x r) = x_eq (i_x (st_state sp)).
+Proof. exact roundtrip_state_unless_skipped_lemma. Qed.
+Print Assumptions roundtrip_state_unless_skipped.
+
+(* _refuted otherwise: Var1 = 0 and a variant that leaves 0 out: the original logs 0 on e, the resumed interpreter
+   (its <data> initialisation is skipped, the initialised-data set being restored) has no value for Var1 *)
+Theorem resume_bisimilar_refuted_skipped_value :
+  chart_named (flatten false w_skipped) = true /\
+  differs (sr_large lg_fixed ex_fixed skip_zero false w_skipped dg dg 20 0 [InEv ev_e]) = true /\
+  match sr_large lg_fixed ex_fixed skip_zero false w_skipped dg dg 20 0 [InEv ev_e] with
+  | Some res => match sr_des res with
+                | Some (DsOk r) => lookup (x_store (i_x (st_state (sr_stop res)))) 1%N = Some 0%Z /\ lookup (x_store (i_x r)) 1%N = None
+                | _ => False
+                end
+  | None => False
+  end /\
+  differs (sr_large lg_fixed ex_fixed sz_fixed false w_skipped dg dg 20 0 [InEv ev_e]) = false.
+Proof. exact skipped_value_refuted. Qed.
+Print Assumptions resume_bisimilar_refuted_skipped_value.
 
 (* U.  A state string of a document with another digest is rejected by both variants; the repaired order of
    the checks leaves the rejecting interpreter untouched ... *)
